@@ -333,17 +333,19 @@ func (o *c04) Step(r *StepRec) []Violation {
 				amt = string(at.Value)
 			}
 		}
+		if amt == "" {
+			continue // a slash of nothing: the property does not say whether it is announced
+		}
 		gotEv = append(gotEv, rq+"|"+pv)
 		gotEv = append(gotEv, "amt|"+pv+"|"+amt)
 	}
 	for _, s := range e.Slashes {
+		if s.Amount == 0 {
+			continue
+		}
 		pv := addr(s.Provider).String()
 		wantEv = append(wantEv, s.ReqID+"|"+pv)
-		amt := fmt.Sprintf("%dstake", s.Amount)
-		if s.Amount == 0 {
-			amt = ""
-		}
-		wantEv = append(wantEv, "amt|"+pv+"|"+amt)
+		wantEv = append(wantEv, "amt|"+pv+"|"+fmt.Sprintf("%dstake", s.Amount))
 	}
 	sort.Strings(gotEv)
 	sort.Strings(wantEv)
